@@ -202,7 +202,7 @@ func runC14(r *Runner, g *Gen, tier string) string {
 				t = named(g.r.Pick("Inner", "Outer", "Inner2")) // static, non-recursive named structs
 			}
 		}
-		r.Do(codecOp("desc", cfg, t, "", ), t.K == "struct", "desc")
+		r.Do(codecOp("desc", cfg, t, ""), t.K == "struct", "desc")
 	}
 	return "generated struct definitions (json tags, all tag options, skipped and unexported fields, nested structs, pointers, all slice shapes, maps, null types, named types) under all option combinations; op = Codec.Descriptor() rendered canonically (index, name, type, type name, explicit presence, logical type, elements); compared with the model's descriptor and with an independent reflection-free computation from the type definition in the harness"
 }
